@@ -48,9 +48,12 @@ def strat(draw, tier):
     spec['pole'] = draw(st.sampled_from([None, None, 'P_pole']))  # extra parameter with log(P) in the likelihood
     spec['pole_values'] = [draw(st.sampled_from([1.0, 2.5, 0.5, 0.0])) for _ in range(n_calls)]
     spec['flags'] = [[draw(st.booleans()), draw(st.booleans())] for _ in range(n_calls)]
+    # some callers ask for the value per observation (scaled=True): the best point is still the one with the best likelihood
+    spec['scaled'] = [draw(st.sampled_from([False, False, False, True])) for _ in range(n_calls)]
     spec['model_name'] = draw(st.sampled_from(MODEL_NAMES))
     spec['then_estimate'] = draw(st.booleans())
     spec['max_crash_points'] = 400 if big else 60
+    spec['flush_writes'] = draw(st.booleans())
     return spec
 
 
@@ -81,15 +84,18 @@ def _build(spec, save=True):
 class _Killer:
     """Counts the harness-visible steps of every save and stops the process at a chosen one."""
 
-    def __init__(self, kill_at):
+    def __init__(self, kill_at, flush_writes=True):
         self.kill_at = kill_at  # (save_index, event_index) or None
+        # buffer policy: every write reaches the disk at once (a partial file becomes visible), or nothing
+        # reaches it before the library flushes / closes (what is still buffered at the stop is lost)
+        self.flush_writes = flush_writes
         self.saves = []  # number of events of each save
         self.current = None
 
     def event(self, fileobj=None):
         self.saves[-1] += 1
         if self.kill_at is not None and (len(self.saves) - 1, self.saves[-1] - 1) == tuple(self.kill_at):
-            if fileobj is not None:
+            if fileobj is not None and self.flush_writes:
                 try:
                     fileobj.flush()
                 except Exception:
@@ -108,7 +114,8 @@ def _install(killer):
 
         def write(self, text):
             n = self._f.write(text)
-            self._f.flush()
+            if killer.flush_writes:
+                self._f.flush()
             killer.event(self._f)
             return n
 
@@ -175,12 +182,14 @@ def _read_file(name):
 
 def _run_history(spec, workdir, kill_at):
     os.chdir(workdir)
-    killer = _Killer(kill_at)
+    killer = _Killer(kill_at, flush_writes=spec.get('flush_writes', True))
     _install(killer)
     the = _build(spec)
     names = list(the.free_beta_names)
     fname = the._save_iterations_file_name()
     log = []
+    scaled_flags = spec.get('scaled') or [False] * len(spec['points'])
+    n_obs = float(the.database.get_sample_size())
     for t, (pt, pv, (hs, bh)) in enumerate(zip(spec['points'], spec['pole_values'], spec['flags'])):
         x = []
         it = iter(pt)
@@ -188,8 +197,8 @@ def _run_history(spec, workdir, kill_at):
             x.append(pv if n == spec.get('pole') else next(it))
         n_saves_before = len(killer.saves)
         try:
-            r = the.calculate_likelihood_and_derivatives(x, scaled=False, hessian=hs, bhhh=bh)
-            f = float(r.function)
+            r = the.calculate_likelihood_and_derivatives(x, scaled=bool(scaled_flags[t]), hessian=hs, bhhh=bh)
+            f = float(r.function) * (n_obs if scaled_flags[t] else 1.0)
             finite = bool(np.isfinite(np.linalg.norm(np.asarray(r.gradient, dtype=float))))
             err = None
         except RuntimeError as e:  # engine refusal (e.g. log of zero): no evaluation took place
@@ -346,6 +355,8 @@ def judge(spec) -> Outcome:
                     break
         out.evaluations += n_crash
         out.classes.append(f'crash_points={min(len(crash_points) // 10 * 10, 60)}+')
+        out.classes.append('mixed_scaled_calls' if len(set((spec.get('scaled') or [False])[:len(log)])) > 1 else 'one_scaling')
+        out.classes.append('writes_flushed_at_once' if spec.get('flush_writes', True) else 'writes_buffered_until_close')
         out.nontrivial = worsened_after_improvement and bool(inside)
     finally:
         shutil.rmtree(workdir, ignore_errors=True)
